@@ -53,56 +53,61 @@ Theorem C18_partition_nearest pts first k cs part :
 Proof. exact (k_center_partition pts first k cs part). Qed.
 Print Assumptions C18_partition_nearest.
 
+(* The values the view compares are EXTENDED values (Model.KCenter.xv): `Val q` = a finite scaled value, `PInf` = +inf, which
+   the view substitutes for every failed observation (values = numpy.where(failures, inf, scaled[:, 0])).  vltb is the
+   comparison `<` the code makes (inf < inf is false); vlt a b := vltb a b = true; vle a b := vltb b a = false (a <= b). *)
+
 (* best_indices_distinct_valid, overall_best_included, each_is_cluster_best, for the endpoint body on ANY values and search
    points: no AssertionError for 2 <= k < n; k distinct indices in range; the first one is the first minimum of the values
    (which is also the first centre); entry c lies in cluster c and is the first minimum of the values over that cluster. *)
 Theorem C18_best_assignments values spts k :
   length values = length spts -> (2 <= k < length spts)%nat ->
   exists cs part best,
-    k_center spts (qargmin values) k = Some (cs, part) /\
+    k_center spts (vargmin values) k = Some (cs, part) /\
     best_assignments values spts k = Some best /\
     length best = k /\ NoDup best /\ (forall i, In i best -> (i < length spts)%nat) /\
-    hd O best = qargmin values /\
+    hd O best = vargmin values /\
     forall c, (c < k)%nat ->
       let b := nth c best O in
       nth b part O = c /\
-      (forall t, (t < length spts)%nat -> nth t part O = c -> nth b values 0 <= nth t values 0) /\
-      (forall t, (t < b)%nat -> nth t part O = c -> nth b values 0 < nth t values 0).
+      (forall t, (t < length spts)%nat -> nth t part O = c -> vle (nth b values PInf) (nth t values PInf)) /\
+      (forall t, (t < b)%nat -> nth t part O = c -> vlt (nth b values PInf) (nth t values PInf)).
 Proof. exact (best_assignments_spec values spts k). Qed.
 Print Assumptions C18_best_assignments.
 
 Theorem C18_first_minimum l : l <> [] ->
-  let r := qargmin l in
-  (r < length l)%nat /\ (forall k, (k < length l)%nat -> nth r l 0 <= nth k l 0) /\ (forall k, (k < r)%nat -> nth r l 0 < nth k l 0).
-Proof. exact (qargmin_first l). Qed.
+  let r := vargmin l in
+  (r < length l)%nat /\ (forall k, (k < length l)%nat -> vle (nth r l PInf) (nth k l PInf)) /\
+  (forall k, (k < r)%nat -> vlt (nth r l PInf) (nth k l PInf)).
+Proof. exact (vargmin_first l). Qed.
 Print Assumptions C18_first_minimum.
 
 (* the same through the glue of the view: any domain (categoricals separated by tgt = sqrt(one_hot_dim)), any history whose
-   categorical values are legal, failures, both objectives; values are the scaled values with failures set to the lie *)
+   categorical values are legal, failures, both objectives; the compared values are the scaled values, +inf for failures *)
 Theorem C18_view cs tgt points vals fails maximize k ohs :
   all_some (map (to_one_hot cs) points) = Some ohs ->
   length vals = length points -> length fails = length points -> (2 <= k < length points)%nat ->
-  let sv := scaled_values maximize vals fails in
+  let mv := masked_values (scaled_values maximize vals fails) fails in
   let spts := map (search_point cs tgt) ohs in
   exists centres part best,
-    k_center spts (qargmin sv) k = Some (centres, part) /\
+    k_center spts (vargmin mv) k = Some (centres, part) /\
     view cs tgt points vals fails maximize k = Some best /\
     length best = k /\ NoDup best /\ (forall i, In i best -> (i < length points)%nat) /\
-    hd O best = qargmin sv /\
+    hd O best = vargmin mv /\
     forall c, (c < k)%nat ->
       let b := nth c best O in
       nth b part O = c /\
-      (forall t, (t < length points)%nat -> nth t part O = c -> nth b sv 0 <= nth t sv 0) /\
-      (forall t, (t < b)%nat -> nth t part O = c -> nth b sv 0 < nth t sv 0).
+      (forall t, (t < length points)%nat -> nth t part O = c -> vle (nth b mv PInf) (nth t mv PInf)) /\
+      (forall t, (t < b)%nat -> nth t part O = c -> vlt (nth b mv PInf) (nth t mv PInf)).
 Proof. exact (view_spec cs tgt points vals fails maximize k ohs). Qed.
 Print Assumptions C18_view.
 
-(* scaled values (failures set to the lie): with at least one success they are negate * s * (w - m) for ONE s > 0 and one m,
-   w = raw value of a success, = the worst successful raw value for a failure; such a map keeps the order of the objective.
-   So "best scaled value" = best raw value among successes, and a failure is never strictly better than any success; it TIES
-   with the worst success (see the refuted strict reading below).  The link to the RAW values is proved below:
-   C18_scaled_order_is_raw_order, C18_first_min_scaled_is_best_raw, C18_cluster_min_scaled_is_best_raw and, through the
-   whole endpoint, C18_view_best_raw. *)
+(* scaled values (views/view.py; a failed row holds the lie there): with at least one success they are negate * s * (w - m)
+   for ONE s > 0 and one m, w = raw value of a success (= the worst successful raw value for a failure); such a map keeps the
+   order of the objective.  The view then replaces the entry of every failed observation by +inf, so a failure is strictly
+   after every success and "best compared value" = best raw value among the successes.  The link to the RAW values:
+   C18_compared_order_is_raw_order, C18_first_min_is_best_success, C18_cluster_min_is_best_success and, through the whole
+   endpoint, C18_view_strict / C18_overall_best_strict / C18_never_only_failures. *)
 Theorem C18_scaled_values_affine (maximize : bool) vals fails :
   select (map negb fails) vals <> [] ->
   exists s m lie, 0 < s /\
@@ -117,147 +122,150 @@ Theorem C18_affine_scaling_keeps_order (neg s m a b : Q) : 0 < s -> (neg == 1 \/
 Proof. exact (affine_order neg s m a b). Qed.
 Print Assumptions C18_affine_scaling_keeps_order.
 
-(* RAW values.  Throughout: nf = the raw values of the successful observations (in order), lie = the worst of them for the
-   objective (least when maximising, greatest when minimising), bestv = the best of them; observation t is a success when
-   fails[t] = false.  "w t" below = the raw value that stands behind scaled value t: vals[t] for a success, lie for a failure. *)
+(* RAW values.  Throughout: nf = the raw values of the successful observations (in order), bestv = the best of them for the
+   objective (greatest when maximising, least when minimising); observation t is a success when fails[t] = false;
+   mv = the values the view compares. *)
 
-(* the order of the scaled values IS the order of the objective on the raw values behind them (smaller scaled = better raw) *)
-Theorem C18_scaled_order_is_raw_order (maximize : bool) vals fails t u :
+(* what the view compares: +inf for a failure, the scaled value for a success; between two successes the comparison IS the
+   comparison of the raw values for the objective (smaller compared value = better raw value); a success is strictly before
+   every failure *)
+Theorem C18_compared_order_is_raw_order (maximize : bool) vals fails t u :
   length fails = length vals ->
   let nf := select (map negb fails) vals in
   nf <> [] -> (t < length vals)%nat -> (u < length vals)%nat ->
-  let sv := scaled_values maximize vals fails in
-  let lie := if maximize then lmin nf else lmax nf in
-  let w := fun i => if nth i fails false then lie else nth i vals 0 in
-  (nth t sv 0 <= nth u sv 0 <-> if maximize then w u <= w t else w t <= w u) /\
-  (nth t sv 0 < nth u sv 0 <-> if maximize then w u < w t else w t < w u) /\
-  lmin nf <= w t <= lmax nf.
+  let mv := masked_values (scaled_values maximize vals fails) fails in
+  (nth t fails false = true -> nth t mv PInf = PInf) /\
+  (nth t fails true = false -> nth u fails false = true -> vlt (nth t mv PInf) (nth u mv PInf)) /\
+  (nth t fails true = false -> nth u fails true = false ->
+     (vle (nth t mv PInf) (nth u mv PInf) <-> if maximize then nth u vals 0 <= nth t vals 0 else nth t vals 0 <= nth u vals 0) /\
+     (vlt (nth t mv PInf) (nth u mv PInf) <-> if maximize then nth u vals 0 < nth t vals 0 else nth t vals 0 < nth u vals 0)).
 Proof.
-  exact (fun Hl Hne Ht Hu => conj (scaled_le_iff maximize vals fails t u Hl Hne Ht Hu)
-                             (conj (scaled_lt_iff maximize vals fails t u Hl Hne Ht Hu)
-                                   (raw_behind_range maximize vals fails t Hl Hne Ht))).
+  exact (fun Hl Hne Ht Hu =>
+    conj (m_failed maximize vals fails Hl t Ht)
+      (conj (m_success_lt_failed maximize vals fails Hl t u Ht Hu)
+         (fun Et Eu => conj (m_le_success maximize vals fails Hl Hne t u Ht Hu Et Eu)
+                            (m_lt_success maximize vals fails Hl Hne t u Ht Hu Et Eu)))).
 Qed.
-Print Assumptions C18_scaled_order_is_raw_order.
+Print Assumptions C18_compared_order_is_raw_order.
 
-(* overall_best_included in the user's sense.  b = the first minimum of the scaled values (the index the view returns first,
-   C18_view).  Some success has raw value bestv and every successful raw value lies between lie and bestv; the raw value
-   behind b IS bestv; if b is a failure then lie == bestv, i.e. ALL successes share one raw value (the tie of the known
-   finding C18:view:overall-best:only-failed-observations-returned-when-successes-tie-with-lie); hence, as soon as two
-   successes differ in raw value, b is a SUCCESSFUL observation with the best raw value, and the first such index (every
-   earlier success is strictly worse). *)
-Theorem C18_first_min_scaled_is_best_raw (maximize : bool) vals fails :
+(* overall_best_included in the user's sense.  b = the first minimum of the compared values (the first centre and the index the
+   view returns first, C18_view): b is a SUCCESSFUL observation, its raw value is bestv, no success has a better raw value and
+   every earlier success is strictly worse (b is the first success with the best raw value). *)
+Theorem C18_first_min_is_best_success (maximize : bool) vals fails :
   length fails = length vals ->
   let nf := select (map negb fails) vals in
   nf <> [] ->
-  let sv := scaled_values maximize vals fails in
-  let lie := if maximize then lmin nf else lmax nf in
+  let mv := masked_values (scaled_values maximize vals fails) fails in
   let bestv := if maximize then lmax nf else lmin nf in
-  let b := qargmin sv in
-  (b < length vals)%nat /\
-  (exists t, (t < length vals)%nat /\ nth t fails true = false /\ nth t vals 0 == bestv) /\
+  let b := vargmin mv in
+  (b < length vals)%nat /\ nth b fails true = false /\ nth b vals 0 == bestv /\
   (forall t, (t < length vals)%nat -> nth t fails true = false ->
-     if maximize then lie <= nth t vals 0 <= bestv else bestv <= nth t vals 0 <= lie) /\
-  (if nth b fails false then lie else nth b vals 0) == bestv /\
-  (nth b fails false = true ->
-     lie == bestv /\
-     forall t u, (t < length vals)%nat -> (u < length vals)%nat -> nth t fails true = false -> nth u fails true = false ->
-       nth t vals 0 == nth u vals 0) /\
-  ((exists t u, (t < length vals)%nat /\ (u < length vals)%nat /\ nth t fails true = false /\ nth u fails true = false /\
-                ~ nth t vals 0 == nth u vals 0) ->
-     nth b fails true = false /\ nth b vals 0 == bestv /\
-     forall t, (t < b)%nat -> nth t fails true = false ->
-       if maximize then nth t vals 0 < nth b vals 0 else nth b vals 0 < nth t vals 0).
-Proof. exact (first_min_scaled_is_best_raw maximize vals fails). Qed.
-Print Assumptions C18_first_min_scaled_is_best_raw.
+     if maximize then nth t vals 0 <= nth b vals 0 else nth b vals 0 <= nth t vals 0) /\
+  (forall t, (t < b)%nat -> nth t fails true = false ->
+     if maximize then nth t vals 0 < nth b vals 0 else nth b vals 0 < nth t vals 0).
+Proof. exact (first_min_is_best_success maximize vals fails). Qed.
+Print Assumptions C18_first_min_is_best_success.
 
-(* each_is_cluster_best in the user's sense, for ANY set P of observations (a cluster) and any index b whose scaled value is
-   the first minimum over P (what C18_view gives for the index returned for a cluster).  If b is a success: its raw value is
-   at least as good as that of every successful member, strictly better than that of every earlier successful member, and
-   strictly better than the lie when an earlier member failed.  If b is a failure: every successful member of P has raw
-   value == lie (no successful member is strictly better than the worst success overall), and no member of P precedes b. *)
-Theorem C18_cluster_min_scaled_is_best_raw (maximize : bool) vals fails (P : nat -> Prop) (b : nat) :
+(* each_is_cluster_best in the user's sense, for ANY set P of observations (a cluster) and any index b whose compared value is
+   the first minimum over P (what C18_view gives for the index returned for a cluster).  If P holds a success then b is a
+   success; when b is a success its raw value is at least as good as that of every successful member and strictly better than
+   that of every earlier successful member; b is a failure only if EVERY member of P failed, and then no member precedes b. *)
+Theorem C18_cluster_min_is_best_success (maximize : bool) vals fails (P : nat -> Prop) (b : nat) :
   length fails = length vals ->
   let nf := select (map negb fails) vals in
   nf <> [] ->
-  let sv := scaled_values maximize vals fails in
-  let lie := if maximize then lmin nf else lmax nf in
+  let mv := masked_values (scaled_values maximize vals fails) fails in
   (b < length vals)%nat ->
-  (forall t, (t < length vals)%nat -> P t -> nth b sv 0 <= nth t sv 0) ->
-  (forall t, (t < b)%nat -> P t -> nth b sv 0 < nth t sv 0) ->
+  (forall t, (t < length vals)%nat -> P t -> vle (nth b mv PInf) (nth t mv PInf)) ->
+  (forall t, (t < b)%nat -> P t -> vlt (nth b mv PInf) (nth t mv PInf)) ->
+  ((exists t, (t < length vals)%nat /\ P t /\ nth t fails true = false) -> nth b fails true = false) /\
   (nth b fails true = false ->
      (forall t, (t < length vals)%nat -> P t -> nth t fails true = false ->
         if maximize then nth t vals 0 <= nth b vals 0 else nth b vals 0 <= nth t vals 0) /\
      (forall t, (t < b)%nat -> P t -> nth t fails true = false ->
-        if maximize then nth t vals 0 < nth b vals 0 else nth b vals 0 < nth t vals 0) /\
-     (forall t, (t < b)%nat -> P t -> nth t fails false = true ->
-        if maximize then lie < nth b vals 0 else nth b vals 0 < lie)) /\
+        if maximize then nth t vals 0 < nth b vals 0 else nth b vals 0 < nth t vals 0)) /\
   (nth b fails false = true ->
-     (forall t, (t < length vals)%nat -> P t -> nth t fails true = false -> nth t vals 0 == lie) /\
+     (forall t, (t < length vals)%nat -> P t -> nth t fails false = true) /\
      (forall t, (t < b)%nat -> ~ P t)).
-Proof. exact (set_min_scaled_is_best_raw maximize vals fails P b). Qed.
-Print Assumptions C18_cluster_min_scaled_is_best_raw.
+Proof. exact (fun Hl Hne => set_min_is_best_success maximize vals fails Hl Hne P b). Qed.
+Print Assumptions C18_cluster_min_is_best_success.
 
-(* the whole endpoint in terms of RAW values (any domain, any history with at least one success, both objectives):
-   the first returned index b0, when it is a success, has a raw value at least as good as every success; it is a failure only
-   when all successes share one raw value; when two successes differ it is a success, the first one with the best raw value.
-   The index b returned for cluster c lies in cluster c; when it is a success its raw value is at least as good as that of
-   every successful member of the cluster (strictly better than the earlier ones); it is a failure only when every successful
-   member of the cluster has the worst successful raw value overall (== lie) and b is the first member of the cluster. *)
-Theorem C18_view_best_raw cs tgt points vals fails maximize k ohs :
+(* the whole endpoint in terms of RAW values (any domain, any history with at least one success, both objectives) - the STRICT
+   reading of the property: the first returned index b0 is a success with the best raw value, the first such index.  The index
+   b returned for cluster c lies in cluster c; if the cluster holds a success, b is a success whose raw value is at least as
+   good as that of every successful member (strictly better than the earlier ones): the first best success of the cluster;
+   b is a failed observation only for a cluster without any success, and is then its first member. *)
+Theorem C18_view_strict cs tgt points vals fails maximize k ohs :
   all_some (map (to_one_hot cs) points) = Some ohs ->
   length vals = length points -> length fails = length points -> (2 <= k < length points)%nat ->
   let nf := select (map negb fails) vals in
   nf <> [] ->
-  let sv := scaled_values maximize vals fails in
+  let mv := masked_values (scaled_values maximize vals fails) fails in
   let spts := map (search_point cs tgt) ohs in
-  let lie := if maximize then lmin nf else lmax nf in
+  let bestv := if maximize then lmax nf else lmin nf in
   exists centres part best,
-    k_center spts (qargmin sv) k = Some (centres, part) /\
+    k_center spts (vargmin mv) k = Some (centres, part) /\
     view cs tgt points vals fails maximize k = Some best /\
     length best = k /\ NoDup best /\ (forall i, In i best -> (i < length points)%nat) /\
     (let b0 := hd O best in
-     (nth b0 fails true = false ->
-        forall t, (t < length points)%nat -> nth t fails true = false ->
-          if maximize then nth t vals 0 <= nth b0 vals 0 else nth b0 vals 0 <= nth t vals 0) /\
-     (nth b0 fails false = true ->
-        forall t u, (t < length points)%nat -> (u < length points)%nat -> nth t fails true = false -> nth u fails true = false ->
-          nth t vals 0 == nth u vals 0) /\
-     ((exists t u, (t < length points)%nat /\ (u < length points)%nat /\ nth t fails true = false /\ nth u fails true = false /\
-                   ~ nth t vals 0 == nth u vals 0) ->
-        nth b0 fails true = false /\
-        forall t, (t < b0)%nat -> nth t fails true = false ->
-          if maximize then nth t vals 0 < nth b0 vals 0 else nth b0 vals 0 < nth t vals 0)) /\
+     In b0 best /\ nth b0 fails true = false /\ nth b0 vals 0 == bestv /\
+     (forall t, (t < length points)%nat -> nth t fails true = false ->
+        if maximize then nth t vals 0 <= nth b0 vals 0 else nth b0 vals 0 <= nth t vals 0) /\
+     (forall t, (t < b0)%nat -> nth t fails true = false ->
+        if maximize then nth t vals 0 < nth b0 vals 0 else nth b0 vals 0 < nth t vals 0)) /\
     forall c, (c < k)%nat ->
       let b := nth c best O in
       nth b part O = c /\
+      ((exists t, (t < length points)%nat /\ nth t part O = c /\ nth t fails true = false) -> nth b fails true = false) /\
       (nth b fails true = false ->
          (forall t, (t < length points)%nat -> nth t part O = c -> nth t fails true = false ->
             if maximize then nth t vals 0 <= nth b vals 0 else nth b vals 0 <= nth t vals 0) /\
          (forall t, (t < b)%nat -> nth t part O = c -> nth t fails true = false ->
-            if maximize then nth t vals 0 < nth b vals 0 else nth b vals 0 < nth t vals 0) /\
-         (forall t, (t < b)%nat -> nth t part O = c -> nth t fails false = true ->
-            if maximize then lie < nth b vals 0 else nth b vals 0 < lie)) /\
+            if maximize then nth t vals 0 < nth b vals 0 else nth b vals 0 < nth t vals 0)) /\
       (nth b fails false = true ->
-         (forall t, (t < length points)%nat -> nth t part O = c -> nth t fails true = false -> nth t vals 0 == lie) /\
+         (forall t, (t < length points)%nat -> nth t part O = c -> nth t fails false = true) /\
          (forall t, (t < b)%nat -> nth t part O <> c)).
-Proof. exact (view_best_raw cs tgt points vals fails maximize k ohs). Qed.
-Print Assumptions C18_view_best_raw.
+Proof. exact (view_strict cs tgt points vals fails maximize k ohs). Qed.
+Print Assumptions C18_view_strict.
 
-(* STRICT reading of "one of which is the overall best observation" (a SUCCESSFUL observation with the best raw value is
-   returned) is false of the faithful model: with one success among failures every scaled value ties with the lie, the first
-   index is taken as the best and only failed observations come back.  Witness replayed on the real endpoint by the searcher
-   (corpus/C18/c18_only_failed_returned.json). *)
-Theorem C18_overall_best_strict_refuted :
-  exists cs tgt points vals fails maximize k best,
-    length vals = length points /\ length fails = length points /\ (2 <= k < length points)%nat /\
+(* STRICT reading of "one of which is the overall best observation", a theorem for EVERY history with at least one success:
+   the endpoint answers, and the first returned index is a SUCCESSFUL observation whose raw value no success beats, every
+   earlier success being strictly worse.  (Before the repair of the view - failures carried the lie and tied with the worst
+   success - the opposite was provable: C18_overall_best_strict_refuted, witness corpus/C18/c18_only_failed_returned.json.) *)
+Theorem C18_overall_best_strict cs tgt points vals fails maximize k ohs :
+  all_some (map (to_one_hot cs) points) = Some ohs ->
+  length vals = length points -> length fails = length points -> (2 <= k < length points)%nat ->
+  (exists i, (i < length points)%nat /\ nth i fails true = false) ->
+  exists best,
     view cs tgt points vals fails maximize k = Some best /\
-    (exists i, nth i fails true = false) /\ (forall i, In i best -> nth i fails false = true).
-Proof.
-  exists [CNum 0 4], 1, [[0]; [4]; [1]], [5; 7; 3], [true; true; false], false, 2%nat, [0; 1]%nat.
-  split; [reflexivity|]. split; [reflexivity|]. split; [simpl; lia|]. split; [vm_compute; reflexivity|].
-  split; [exists 2%nat; reflexivity|]. intros i [<-|[<-|[]]]; reflexivity.
-Qed.
-Print Assumptions C18_overall_best_strict_refuted.
+    let b0 := hd O best in
+    In b0 best /\ (b0 < length points)%nat /\ nth b0 fails true = false /\
+    (forall t, (t < length points)%nat -> nth t fails true = false ->
+       if maximize then nth t vals 0 <= nth b0 vals 0 else nth b0 vals 0 <= nth t vals 0) /\
+    (forall t, (t < b0)%nat -> nth t fails true = false ->
+       if maximize then nth t vals 0 < nth b0 vals 0 else nth b0 vals 0 < nth t vals 0).
+Proof. exact (overall_best_strict cs tgt points vals fails maximize k ohs). Qed.
+Print Assumptions C18_overall_best_strict.
+
+(* the negation of the former finding: whenever the endpoint answers and the history holds a success, a successful
+   observation is among the returned indices *)
+Theorem C18_never_only_failures cs tgt points vals fails maximize k best :
+  length vals = length points -> length fails = length points -> (2 <= k < length points)%nat ->
+  view cs tgt points vals fails maximize k = Some best ->
+  (exists i, (i < length points)%nat /\ nth i fails true = false) ->
+  exists i, In i best /\ nth i fails true = false.
+Proof. exact (never_only_failures cs tgt points vals fails maximize k best). Qed.
+Print Assumptions C18_never_only_failures.
+
+(* the two witnesses of the former findings (corpus/C18): one success among failures - the success is returned first and the
+   failed observation 1 only represents the cluster {1}, which holds no success; a cluster {1, 3} whose only success is the
+   worst success overall - the success 3 is returned, not the failed observation 1 that precedes it. *)
+Example C18_example_former_findings :
+  view [CNum 0 4] 1 [[0]; [4]; [1]] [5; 7; 3] [true; true; false] false 2 = Some [2; 1]%nat /\
+  k_center (map (search_point [CNum 0 4] 1) [[0]; [4]; [1]]) 2 2 = Some ([2; 1]%nat, [0; 1; 0]%nat) /\
+  view [CNum 0 4] 1 [[0]; [4]; [1]; [3]] [5; 7; 3; 6] [false; true; false; false] false 2 = Some [2; 3]%nat /\
+  k_center (map (search_point [CNum 0 4] 1) [[0]; [4]; [1]; [3]]) 2 2 = Some ([2; 1]%nat, [0; 1; 0; 1]%nat).
+Proof. vm_compute. repeat split; reflexivity. Qed.
 
 (* non-vacuity: duplicated points (the test-suite's repeated-point instance, shortened) and a mixed domain with a categorical *)
 Example C18_example :
@@ -268,26 +276,24 @@ Proof. vm_compute. split; reflexivity. Qed.
 
 (* non-vacuity of the raw-value statements: one double in [0,4], four observations at 0, 4, 1, 3 with raw values 5, 7, 3, 4,
    the second one FAILED (its 7 is ignored), two clusters {0, 2} and {1, 3}.  Successful raw values: [5; 3; 4].
-   Maximising: lie = 3, the best success is observation 0 (5); cluster {1, 3} returns the success 3 (4 beats the lie 3).
-   Minimising: lie = 5, the best success is observation 2 (3); cluster {1, 3} returns the success 3 (4 beats the lie 5).
-   Third instance (raw value 6 instead of 4, minimising): the only success of cluster {1, 3} IS the worst success (6 = lie), it
-   ties with the failed observation 1, which comes first and is returned: the failure clause of C18_view_best_raw is sharp.
-   The three view results are also what the real endpoint returns on these inputs. *)
+   Maximising: the best success is observation 0 (5); cluster {1, 3} returns its success 3, not the failed observation 1.
+   Minimising: the best success is observation 2 (3); cluster {1, 3} returns the success 3.
+   Third instance (raw value 6 instead of 4, minimising): the only success of cluster {1, 3} is the worst success overall; it
+   is still returned (the failed observation 1 is +inf).  Fourth instance (observation 3 failed as well): cluster {1, 3} holds
+   no success and its first member 1 is returned: the failure clause of C18_view_strict is not vacuous.
+   The four view results are also what the real endpoint returns on these inputs. *)
 Example C18_example_raw :
   let cs := [CNum 0 4] in let pts := [[0]; [4]; [1]; [3]] in let fails := [false; true; false; false] in
   let vals := [5; 7; 3; 4] in
   all_some (map (to_one_hot cs) pts) = Some pts /\
   select (map negb fails) vals = [5; 3; 4] /\
-  (exists t u, (t < length pts)%nat /\ (u < length pts)%nat /\ nth t fails true = false /\ nth u fails true = false /\
-               ~ nth t vals 0 == nth u vals 0) /\
+  masked_values (scaled_values false vals fails) fails = [Val (4 # 40); PInf; Val (-4 # 40); Val (0 # 40)] /\
   k_center (map (search_point cs 1) pts) 0 2 = Some ([0; 1]%nat, [0; 1; 0; 1]%nat) /\
-  qargmin (scaled_values true vals fails) = 0%nat /\
+  vargmin (masked_values (scaled_values true vals fails) fails) = 0%nat /\
   view cs 1 pts vals fails true 2 = Some [0; 3]%nat /\
   k_center (map (search_point cs 1) pts) 2 2 = Some ([2; 1]%nat, [0; 1; 0; 1]%nat) /\
-  qargmin (scaled_values false vals fails) = 2%nat /\
+  vargmin (masked_values (scaled_values false vals fails) fails) = 2%nat /\
   view cs 1 pts vals fails false 2 = Some [2; 3]%nat /\
-  view cs 1 pts [5; 7; 3; 6] fails false 2 = Some [2; 1]%nat.
-Proof.
-  cbv zeta. repeat split; try (vm_compute; reflexivity).
-  exists 0%nat, 2%nat. repeat split; try (simpl; lia). intros H. vm_compute in H. discriminate.
-Qed.
+  view cs 1 pts [5; 7; 3; 6] fails false 2 = Some [2; 3]%nat /\
+  view cs 1 pts [5; 7; 3; 6] [false; true; false; true] false 2 = Some [2; 1]%nat.
+Proof. cbv zeta. repeat split; vm_compute; reflexivity. Qed.
